@@ -292,6 +292,40 @@ pub fn run(ctx: &Ctx) -> CheckResult {
             cfg_cases.push(mk("all-flags", &|c| c.steps[0].argv.extend(["--no-blocks", "--no-intrinsics", "--no-arguments", "--no-diff-switches", "--no-calls", "--show-instr-offsets"].iter().map(|x| s(x)))));
         }
     }
+    // where the file lives relative to the working directory, with non-ASCII directory names: given by
+    // absolute path from a sibling directory (names that diverge inside a multi-byte character, names
+    // that share only their first byte, ASCII names), from below the working directory, from a parent
+    for t in targets.iter().filter(|t| t.bundled && t.name.starts_with("b2b/")).step_by(if quick { 5 } else { 1 }) {
+        for (tag, cwd, dir) in [
+            ("sibling-cjk-diverging-inside-a-char", "東方紅魔郷", "東方神霊廟"),
+            ("sibling-one-char-names", "紅", "神"),
+            ("sibling-ascii", "work-a", "work-b"),
+            ("below-cwd", "作業", "作業/下/位"),
+            ("above-cwd", "上/中/下", "上"),
+            ("emoji-and-combining", "e\u{301}🙂", "e\u{301}🙃"),
+        ] {
+            for k in [0usize, if t.cmd == "truanm" { 5 } else { 1 }] {
+                let mut c = target_case(t, k, &[], "");
+                let file = format!("{}/input.bin", dir);
+                for i in c.inputs.iter_mut() {
+                    if i.path == t.path {
+                        i.path = file.clone();
+                    }
+                }
+                for a in c.steps[0].argv.iter_mut() {
+                    if *a == t.path {
+                        *a = format!("{{ROOT}}/{}", file);
+                    } else if a.starts_with("map/") || a.starts_with("mapfile-") {
+                        *a = format!("{{ROOT}}/{}", a);
+                    }
+                }
+                c.steps[0].env.push(("TRUSIM_CWD".into(), cwd.into()));
+                c.name = format!("{} [config:path:{}]", c.name, tag);
+                c.meta = json!({});
+                cfg_cases.push(c);
+            }
+        }
+    }
     // extract into a directory that already contains symbolic links where it wants to write:
     // a self-referential link, a two-link cycle, a dangling link, a link out of the directory, a link
     // to a regular directory.  Must terminate with success or an error (tarbomb protection), never hang.
